@@ -315,6 +315,7 @@ thread_local! {
     static RANDINT: std::cell::Cell<Option<u8>> = const { std::cell::Cell::new(None) };
     static FAILPOINT: std::cell::RefCell<Option<(String, usize)>> = const { std::cell::RefCell::new(None) };
     static FAILPOINT_TRACE: std::cell::RefCell<Vec<String>> = const { std::cell::RefCell::new(Vec::new()) };
+    static FAILPOINT_STOPS: std::cell::Cell<bool> = const { std::cell::Cell::new(false) };
 }
 
 /// Replace the object-store server's random draws (cleanup probability, snapshot urgency) on
@@ -330,6 +331,12 @@ pub(in crate::server) fn randint_override() -> Option<u8> {
 /// Arm the failpoint `name` on this thread: its `skip`-th next visit (0 = the next one) fails.
 pub fn arm_failpoint(name: Option<(&str, usize)>) {
     FAILPOINT.with(|f| *f.borrow_mut() = name.map(|(n, k)| (n.to_string(), k)));
+}
+
+/// Whether an armed failpoint stops the caller (an unwinding panic, standing for the process
+/// stopping at that point: no error handling of the backend runs) instead of returning an error.
+pub fn set_failpoint_stops(stop: bool) {
+    FAILPOINT_STOPS.with(|f| f.set(stop));
 }
 
 /// The failpoints visited on this thread since the last call.
@@ -356,6 +363,9 @@ pub(in crate::server) fn failpoint(name: &str) -> Result<()> {
         }
     });
     if fire {
+        if FAILPOINT_STOPS.with(|f| f.get()) {
+            panic!("verif: the process stops at {name}");
+        }
         Err(Error::Server(format!("injected fault at {name}")))
     } else {
         Ok(())
